@@ -28,6 +28,12 @@ func c19Frame(p []byte) []byte {
 
 // c19Page builds the status page for the given traffic.
 func c19Page(client, server, junk, payload []byte, level int) []byte {
+	return c19PageErr(client, server, junk, payload, nil, level)
+}
+
+// errPayload: a CRC-valid frame that could not be decoded (a type 1005 cut
+// short) and therefore carries an error text.
+func c19PageErr(client, server, junk, payload, errPayload []byte, level int) []byte {
 	q := circularQueue.NewCircularQueue(3)
 	if len(junk) > 0 {
 		q.Add(*rtcm.NewNonRTCM(junk))
@@ -39,6 +45,16 @@ func c19Page(client, server, junk, payload []byte, level int) []byte {
 		m := rtcm.NewMessage(1230, "", c19Frame(p), 0)
 		if level == 1 {
 			m.LogLevel = -4 // slog.LevelDebug
+		}
+		q.Add(*m)
+	}
+	if len(errPayload) > 0 {
+		p := append([]byte(nil), errPayload...)
+		p[0] = 0x3e // type 1005
+		p[1] = 0xd0 | p[1]&0x0f
+		m := rtcm.NewMessage(1005, "bitstream is too short for a type 1005 message", c19Frame(p), 0)
+		if level == 1 {
+			m.LogLevel = -4
 		}
 		q.Add(*m)
 	}
@@ -69,9 +85,9 @@ func VerifC19_ReportEscapesTraffic() {
 	// one traffic source at a time carries symbolic bytes (the page is a
 	// concatenation of independently rendered sections; escaping forks three
 	// ways per byte, so the sections are explored separately)
-	source := verifParam("source", 0, 3)
+	source := verifParam("source", 0, 4)
 	n := verifParam("bytes", 1, 3)
-	nc, ns, nj, np := 0, 0, 0, 0
+	nc, ns, nj, np, ne := 0, 0, 0, 0, 0
 	switch source {
 	case 0:
 		nc = n
@@ -79,18 +95,22 @@ func VerifC19_ReportEscapesTraffic() {
 		ns = n
 	case 2:
 		nj = n
-	default:
+	case 3:
 		np = n
 		if np == 1 {
 			np = 2 // a payload holds at least the 12-bit type
 		}
+	default:
+		// a message that carries an error text (a CRC-valid frame that
+		// could not be decoded)
+		ne = n + 1
 	}
 	level := verifParam("debug", 0, 1)
 	client, server := verifBytes("c", nc), verifBytes("s", ns)
-	junk, payload := verifBytes("j", nj), verifBytes("p", np)
+	junk, payload, errPayload := verifBytes("j", nj), verifBytes("p", np), verifBytes("e", ne)
 	verifWitness("reached")
-	page := c19Page(client, server, junk, payload, level)
-	plain := c19Page(c19Harmless(nc), c19Harmless(ns), c19Harmless(nj), c19Harmless(np), level)
+	page := c19PageErr(client, server, junk, payload, errPayload, level)
+	plain := c19PageErr(c19Harmless(nc), c19Harmless(ns), c19Harmless(nj), c19Harmless(np), c19Harmless(ne), level)
 	verifWitness("returned")
 	verifAssert("no-traffic-byte-opens-a-tag", verifCountByte(page, '<') == verifCountByte(plain, '<'))
 	verifAssert("no-traffic-byte-closes-a-tag", verifCountByte(page, '>') == verifCountByte(plain, '>'))
